@@ -217,6 +217,15 @@ func c11Gen(ctx *core.Ctx) {
 			run(c11Input{Kind: "rush", Subs: sb[0], Bcasts: sb[1], Closes: sb[2], Mode: mode, Reps: reps})
 		}
 	}
+	// ... and on ONE processor (the scheduler as a deterministic seam): forwarders and the other
+	// Close calls have not run when the goroutine calls Close; 1..4 Close calls
+	ureps := 12
+	if ctx.Thorough {
+		ureps = 300
+	}
+	for _, sb := range [][3]int{{1, 1, 1}, {8, 1, 1}, {16, 1, 2}, {16, 5, 2}, {32, 2, 3}, {4, 10, 2}, {24, 3, 4}, {2, 1, 2}} {
+		run(c11Input{Kind: "rush", Subs: sb[0], Bcasts: sb[1], Closes: sb[2], Mode: "uni", Reps: ureps})
+	}
 }
 
 // c11ChurnSystematic: n0 subscribers; EVERY choice of a first leaver; a newcomer; EVERY choice of
